@@ -362,11 +362,21 @@ def assign(live, op, step, out, stats, log, prefix):
     elif fmt == "dict":
         arg = {nm: v for nm, v in vals}
         full = False
-    elif fmt == "dict_sym":
+    elif fmt in ("dict_sym", "dict_fsym", "dict_mix"):
+        # keys: the model's own symbol / a Symbol the caller made himself (no or other assumptions) / the name
+        import sympy
+        kinds = op.get("kinds") or [{"dict_sym": "sym", "dict_fsym": "fsym"}.get(fmt, "name")] * len(vals)
         arg = {}
-        for nm, v in vals:
-            sym = ode._paramDict.get(nm)
-            arg[sym if sym is not None else nm] = v
+        for (nm, v), kind in zip(vals, kinds):
+            key = nm
+            if kind == "sym":
+                sym = ode._paramDict.get(nm)
+                key = sym if sym is not None else sympy.Symbol(nm)
+            elif kind == "fsym":
+                key = sympy.Symbol(nm)
+            elif kind == "fsym_pos":
+                key = sympy.Symbol(nm, positive=True)
+            arg[key] = v
         full = False
     elif fmt == "scalar":
         arg = vals[0][1]
@@ -391,7 +401,7 @@ def assign(live, op, step, out, stats, log, prefix):
             out.append(fail("%s.reject.%s" % (prefix, reject), step, "an assignment with %s (%s form) was accepted silently" % (reject.replace("_", " "), fmt)))
             # what it bound is unspecified: mark everything it mentioned as either
         # narrow relaxation: names mentioned by a rejected *dict* update may hold old or new value
-        if fmt in ("dict", "dict_sym") or raised is None:
+        if fmt.startswith("dict") or raised is None:
             for nm, v in vals:
                 if nm in live.values:
                     old = live.values[nm]
